@@ -255,6 +255,11 @@ func c34GenSegment(t *rapid.T) ([]byte, c34Desc) {
 			// a plausible batch header in front so the walk reaches the records section
 			b := &vfkit.Batch{Magic: 2, NumRecords: int32(rapid.IntRange(1, 5).Draw(t, "nrec")), RawRecords: body}
 			body = b.Encode()
+			if rapid.IntRange(0, 3).Draw(t, "edge-batchlen") == 0 {
+				v := rapid.SampledFrom(c34BatchLenEdges).Draw(t, "batchlen")
+				binary.BigEndian.PutUint32(body[8:], uint32(v))
+				d.Field, d.ValClass, d.Value = "batchlen", "int32-edge", v
+			}
 		}
 		return c34WrapSegment(body), d
 	default:
@@ -495,6 +500,9 @@ func FuzzVF_C34_Decode(f *testing.F) {
 	f.Add(c34WrapSegment(append(vfkit.SimpleBatch(0, 1, 1, "a"), vfkit.SimpleBatch(1, 2, 2, "b")...)))
 	hb := vfkit.NewBatch(0, 5, []vfkit.Record{{Key: nil, Value: []byte{}, Headers: []vfkit.RecHeader{{Key: "h", Value: nil}, {Key: "", Value: []byte("x")}}}})
 	f.Add(c34WrapSegment(hb.Encode()))
+	for _, v := range c34BatchLenEdges {
+		f.Add(c34WithBatchLen(c34WrapSegment(vfkit.SimpleBatch(0, 1726000000000, 2, "edge")), uint32(v)))
+	}
 	f.Fuzz(func(t *testing.T, data []byte) {
 		if len(data) > 1<<16 {
 			return
